@@ -3,6 +3,8 @@ import BearVerif.Core.Fwd
   C07 — helper lemmas for `Props/C07.lean` (core Lean only).
 -/
 namespace BearVerif.Fwd
+set_option linter.unusedSimpArgs false
+set_option linter.unusedSectionVars false
 
 /-! ### association lists -/
 
@@ -157,9 +159,6 @@ theorem viaProxy_obj (v : H) (h : v.isObj = true) : viaProxy v = embed v := by
 
 /-! ### the cache only remembers what a fresh resolution would answer -/
 
-/-- every cached referent is what resolving the proxy NOW (without the cache) yields -/
-def CacheOK (s : St) (c : List (Proxy × Ref)) : Prop :=
-  ∀ p r, cacheGet? c p = some r → resolveFresh s p = .ok r
 
 theorem cacheOK_nil (s : St) : CacheOK s [] := by
   intro p r h; simp [cacheGet?] at h
@@ -281,6 +280,903 @@ theorem forces_spec (s : St) : ∀ (hs : List H) (c : List (Proxy × Ref)), Cach
     obtain ⟨rs, c2⟩ := fa
     simp only at h1 h2 ⊢
     exact ⟨by rw [h1.1, h2.1], h2.2⟩
+end
+
+/-! ### evaluation in closed scopes yields closed hints -/
+
+/-- every value a lookup can return is free of proxies and strings -/
+def LkClosed (lk : Name → Except Err H) : Prop := ∀ n v, lk n = .ok v → v.closed = true
+
+theorem getAttr_closed (hp : Heap) (hh : HeapClosed hp) (v w : H) (n : Name) (hv : v.closed = true)
+    (h : getAttr hp v n = .ok w) : w.closed = true := by
+  unfold getAttr at h
+  cases v with
+  | obj id =>
+    simp only at h
+    cases hw : (hp.attrs id).get? n with
+    | some w' => simp only [hw, Except.ok.injEq] at h; subst h; exact hh id n w' hw
+    | none => simp [hw] at h
+  | fwd p => simp [H.closed] at hv
+  | str e => simp at h
+  | sub g a => simp at h
+  | bor a b => simp at h
+  | lit l => simp at h
+
+theorem closed_not_str (v : H) (h : v.closed = true) : v.isStr = false := by
+  cases v <;> simp_all [H.closed, H.isStr]
+
+mutual
+theorem evalH_closed (hp : Heap) (lk : Name → Except Err H) (hh : HeapClosed hp) (hl : LkClosed lk) :
+    ∀ (e : HExpr) (v : H), evalH hp lk true e = .ok v → v.closed = true
+  | .name n, v, h => hl n v (by simpa [evalH] using h)
+  | .attr e n, v, h => by
+    simp only [evalH] at h
+    cases he : evalH hp lk true e with
+    | error err => simp [he, Except.bind] at h
+    | ok w =>
+      simp only [he, Except.bind] at h
+      exact getAttr_closed hp hh w v n (evalH_closed hp lk hh hl e w he) h
+  | .sub e es, v, h => by
+    simp only [evalH] at h
+    cases he : evalH hp lk true e with
+    | error err => simp [he, Except.bind] at h
+    | ok w =>
+      cases hes : evalH.evalHs hp lk true es with
+      | error err => simp [he, hes, Except.bind] at h
+      | ok ws =>
+        simp only [he, hes, Except.bind, Except.ok.injEq] at h
+        subst h
+        simp [H.closed, evalH_closed hp lk hh hl e w he, evalHs_closed hp lk hh hl es ws hes]
+  | .bor a b, v, h => by
+    simp only [evalH] at h
+    cases ha : evalH hp lk true a with
+    | error err => simp [ha, Except.bind] at h
+    | ok x =>
+      cases hb : evalH hp lk true b with
+      | error err => simp [ha, hb, Except.bind] at h
+      | ok y =>
+        have hx := evalH_closed hp lk hh hl a x ha
+        have hy := evalH_closed hp lk hh hl b y hb
+        simp only [ha, hb, Except.bind, orH, closed_not_str x hx, closed_not_str y hy, Bool.or_self,
+          Bool.false_eq_true, ↓reduceIte, Except.ok.injEq] at h
+        subst h
+        simp [H.closed, hx, hy]
+  | .lit l, v, h => by
+    simp only [evalH, Except.ok.injEq] at h; subst h; simp [H.closed]
+  | .quoted e, v, h => by
+    simp only [evalH, ↓reduceIte] at h
+    exact evalH_closed hp lk hh hl e v h
+theorem evalHs_closed (hp : Heap) (lk : Name → Except Err H) (hh : HeapClosed hp) (hl : LkClosed lk) :
+    ∀ (es : List HExpr) (vs : List H), evalH.evalHs hp lk true es = .ok vs → H.closed.closedL vs = true
+  | [], vs, h => by simp only [evalH.evalHs, Except.ok.injEq] at h; subst h; simp [H.closed.closedL]
+  | e :: es, vs, h => by
+    simp only [evalH.evalHs] at h
+    cases he : evalH hp lk true e with
+    | error err => simp [he, Except.bind] at h
+    | ok w =>
+      cases hes : evalH.evalHs hp lk true es with
+      | error err => simp [he, hes, Except.bind] at h
+      | ok ws =>
+        simp only [he, hes, Except.bind, Except.ok.injEq] at h
+        subst h
+        simp [H.closed.closedL, evalH_closed hp lk hh hl e w he, evalHs_closed hp lk hh hl es ws hes]
+end
+
+-- a hint without strings is stored as it is
+mutual
+theorem resolveH_closed (rs : HExpr → Except Err H) : ∀ h : H, h.closed = true → resolveH rs h = .ok h
+  | .obj _, _ => by simp [resolveH]
+  | .fwd _, h => by simp [H.closed] at h
+  | .str _, h => by simp [H.closed] at h
+  | .sub g args, h => by
+    simp only [H.closed, Bool.and_eq_true] at h
+    simp [resolveH, resolveH_closed rs g h.1, resolveHs_closed rs args h.2, Except.bind]
+  | .bor a b, h => by
+    simp only [H.closed, Bool.and_eq_true] at h
+    simp [resolveH, resolveH_closed rs a h.1, resolveH_closed rs b h.2, Except.bind]
+  | .lit _, _ => by simp [resolveH]
+theorem resolveHs_closed (rs : HExpr → Except Err H) : ∀ hs : List H, H.closed.closedL hs = true → resolveH.resolveHs rs hs = .ok hs
+  | [], _ => by simp [resolveH.resolveHs]
+  | g :: gs, h => by
+    simp only [H.closed.closedL, Bool.and_eq_true] at h
+    simp [resolveH.resolveHs, resolveH_closed rs g h.1, resolveHs_closed rs gs h.2, Except.bind]
+end
+
+/-! ### Python's scoping vs the forward scope -/
+
+theorem firstSome_append_none {α} (xs ys : List (Option α)) (h : ∀ x ∈ xs, x = none) :
+    firstSome (xs ++ ys) = firstSome ys := by
+  induction xs with
+  | nil => rfl
+  | cons x r ih =>
+    have hx : x = none := h x (by simp)
+    subst hx
+    simp only [List.cons_append, firstSome]
+    exact ih (fun y hy => h y (by simp [hy]))
+
+theorem firstSome_cons {α} (x : Option α) (xs : List (Option α)) :
+    firstSome (x :: xs) = match x with
+      | some a => some a
+      | none => firstSome xs := by
+  cases x <;> rfl
+
+theorem findFrameNamed_head (s : St) (a : Nat) (r : List Nat) (fa : Frame) (h : s.act? a = some fa) :
+    findFrameNamed s fa.name (a :: r) = some fa := by
+  simp [findFrameNamed, h]
+
+
+theorem getAttr_mono (hp0 hp : Heap) (hm : HeapMono hp0 hp) (v w : H) (n : Name) (h : getAttr hp0 v n = .ok w) :
+    getAttr hp v n = .ok w := by
+  unfold getAttr at h ⊢
+  cases v with
+  | obj id =>
+    simp only at h ⊢
+    cases hw : (hp0.attrs id).get? n with
+    | some w' => simp only [hw, Except.ok.injEq] at h; subst h; simp [hm id n w' hw]
+    | none => simp [hw] at h
+  | fwd p => exact h
+  | str e => simp at h
+  | sub g a => simp at h
+  | bor a b => simp at h
+  | lit l => simp at h
+
+mutual
+theorem evalH_mono (hp0 hp : Heap) (hm : HeapMono hp0 hp) (lk : Name → Except Err H) (tr : Bool) :
+    ∀ (e : HExpr) (v : H), evalH hp0 lk tr e = .ok v → evalH hp lk tr e = .ok v
+  | .name n, v, h => by simpa [evalH] using h
+  | .attr e n, v, h => by
+    simp only [evalH] at h ⊢
+    cases he : evalH hp0 lk tr e with
+    | error err => simp [he, Except.bind] at h
+    | ok w =>
+      simp only [he, Except.bind] at h
+      simp only [evalH_mono hp0 hp hm lk tr e w he, Except.bind]
+      exact getAttr_mono hp0 hp hm w v n h
+  | .sub e es, v, h => by
+    simp only [evalH] at h ⊢
+    cases he : evalH hp0 lk tr e with
+    | error err => simp [he, Except.bind] at h
+    | ok w =>
+      cases hes : evalH.evalHs hp0 lk tr es with
+      | error err => simp [he, hes, Except.bind] at h
+      | ok ws =>
+        simp only [he, hes, Except.bind] at h
+        simp only [evalH_mono hp0 hp hm lk tr e w he, evalHs_mono hp0 hp hm lk tr es ws hes, Except.bind]
+        exact h
+  | .bor a b, v, h => by
+    simp only [evalH] at h ⊢
+    cases ha : evalH hp0 lk tr a with
+    | error err => simp [ha, Except.bind] at h
+    | ok x =>
+      cases hb : evalH hp0 lk tr b with
+      | error err => simp [ha, hb, Except.bind] at h
+      | ok y =>
+        simp only [ha, hb, Except.bind] at h
+        simp only [evalH_mono hp0 hp hm lk tr a x ha, evalH_mono hp0 hp hm lk tr b y hb, Except.bind]
+        exact h
+  | .lit l, v, h => by simpa [evalH] using h
+  | .quoted e, v, h => by
+    simp only [evalH] at h ⊢
+    cases tr with
+    | true => simp only [↓reduceIte] at h ⊢; exact evalH_mono hp0 hp hm lk true e v h
+    | false => simpa using h
+theorem evalHs_mono (hp0 hp : Heap) (hm : HeapMono hp0 hp) (lk : Name → Except Err H) (tr : Bool) :
+    ∀ (es : List HExpr) (vs : List H), evalH.evalHs hp0 lk tr es = .ok vs → evalH.evalHs hp lk tr es = .ok vs
+  | [], vs, h => by simpa [evalH.evalHs] using h
+  | e :: es, vs, h => by
+    simp only [evalH.evalHs] at h ⊢
+    cases he : evalH hp0 lk tr e with
+    | error err => simp [he, Except.bind] at h
+    | ok w =>
+      cases hes : evalH.evalHs hp0 lk tr es with
+      | error err => simp [he, hes, Except.bind] at h
+      | ok ws =>
+        simp only [he, hes, Except.bind] at h
+        simp only [evalH_mono hp0 hp hm lk tr e w he, evalHs_mono hp0 hp hm lk tr es ws hes, Except.bind]
+        exact h
+end
+
+/-! ### late definitions at module level -/
+
+theorem fwLk_module (s : St) (fr : FuncRec) (n : Name) (hmod : fr.lex = []) :
+    fwLk s fr [] n = proxyLk s.modScope fr.fid none n := by
+  simp only [fwLk, fwLayers, fwLocals, hmod, List.isEmpty_nil, Bool.and_self, ↓reduceIte, List.nil_append, St.modScope]
+
+theorem pyLk_module (s : St) (n : Name) : pyLk s [] n = boundLk s.modScope n := by
+  simp only [pyLk, boundLk, specLookup, visible, List.map_nil, List.nil_append, firstSome_cons, firstSome, St.modScope,
+    Scope.get?_append]
+  cases s.globals.get? n <;> cases s.builtins.get? n <;> rfl
+
+theorem modAttr_bare (s : St) (n : Name) : modAttr s [n] = s.modScope.get? n := by
+  simp only [modAttr, St.modScope, Scope.get?_append]
+  cases s.globals.get? n <;> rfl
+
+theorem boundLk_closed (sc : Scope) (h : ∀ n w, sc.get? n = some w → w.closed = true) : LkClosed (boundLk sc) := by
+  intro n v hv
+  unfold boundLk at hv
+  cases hg : sc.get? n with
+  | some w => simp only [hg, Except.ok.injEq] at hv; subst hv; exact h n w hg
+  | none => simp [hg] at hv
+
+theorem bind_ok {α β} (x : Except Err α) (g : α → Except Err β) (b : β) (h : x.bind g = .ok b) :
+    ∃ a, x = .ok a ∧ g a = .ok b := by
+  cases x with
+  | error e => simp [Except.bind] at h
+  | ok a => exact ⟨a, rfl, h⟩
+
+section late
+variable (s0 s : St) (fr : FuncRec) (hmod : fr.lex = [])
+  (hcl0 : ∀ n w, s0.modScope.get? n = some w → w.closed = true)
+  (hkeep : ∀ n w, s0.modScope.get? n = some w → s.modScope.get? n = some w)
+  (hheap : HeapMono s0.heap s.heap) (hhc : HeapClosed s.heap)
+  (hcl : ∀ n w, s.modScope.get? n = some w → w.closed = true)
+include hmod hcl0 hkeep hheap hhc hcl
+
+/-- an expression all of whose names were bound at decoration time has the same, closed, value now -/
+theorem late_bound_expr (e : HExpr) (h v : H)
+    (hb : e.names.all (fun n => (s0.modScope.get? n).isSome) = true)
+    (hdec : evalH s0.heap (fwLk s0 fr []) true e = .ok h)
+    (hnow : evalH s.heap (pyLk s []) true e = .ok v) : h = v ∧ v.closed = true := by
+  have hb' : ∀ n ∈ e.names, ∃ w, s0.modScope.get? n = some w := by
+    intro n hn
+    have := List.all_eq_true.mp hb n hn
+    exact Option.isSome_iff_exists.mp this
+  have h1 : evalH s0.heap (fwLk s0 fr []) true e = evalH s0.heap (boundLk s0.modScope) true e := by
+    apply evalH_congr
+    intro n hn
+    obtain ⟨w, hw⟩ := hb' n hn
+    simp [fwLk_module s0 fr n hmod, proxyLk, boundLk, hw]
+  have h2 : evalH s.heap (pyLk s []) true e = evalH s.heap (boundLk s0.modScope) true e := by
+    apply evalH_congr
+    intro n hn
+    obtain ⟨w, hw⟩ := hb' n hn
+    simp [pyLk_module s n, boundLk, hw, hkeep n w hw]
+  rw [h1] at hdec
+  rw [h2] at hnow
+  have h3 := evalH_mono s0.heap s.heap hheap _ true e h hdec
+  rw [h3] at hnow
+  cases hnow
+  exact ⟨rfl, evalH_closed s.heap _ hhc (boundLk_closed _ hcl0) e h h3⟩
+
+mutual
+theorem late_core : ∀ (e : HExpr) (h v : H), e.plain = true →
+    lateSafe (fun n => (s0.modScope.get? n).isSome) e = true →
+    evalH s0.heap (fwLk s0 fr []) true e = .ok h → evalH s.heap (pyLk s []) true e = .ok v →
+    (forceFresh s h).erase = embed v
+  | .name n, h, v, _, _, hdec, hnow => by
+    simp only [evalH, fwLk_module s0 fr n hmod, proxyLk] at hdec
+    simp only [evalH, pyLk_module s n, boundLk] at hnow
+    cases h0 : s0.modScope.get? n with
+    | some w =>
+      simp only [h0, Except.ok.injEq] at hdec
+      simp only [hkeep n w h0, Except.ok.injEq] at hnow
+      subst hdec; subst hnow
+      rw [forceFresh_closed s _ (hcl0 n _ h0), embed_erase]
+    | none =>
+      simp only [h0, Except.ok.injEq] at hdec
+      subst hdec
+      cases h1 : s.modScope.get? n with
+      | none => simp [h1] at hnow
+      | some w =>
+        simp only [h1, Except.ok.injEq] at hnow
+        subst hnow
+        simp only [forceFresh, resolveFresh, modAttr_bare, h1, refRH]
+        exact viaProxy_erase _
+  | .attr e a, h, v, _, hs, hdec, hnow => by
+    simp only [lateSafe] at hs
+    simp only [evalH] at hdec hnow
+    obtain ⟨h', hd1, hd2⟩ := bind_ok _ _ _ hdec
+    obtain ⟨v', hn1, hn2⟩ := bind_ok _ _ _ hnow
+    obtain ⟨heq, hcv⟩ := late_bound_expr s0 s fr hmod hcl0 hkeep hheap hhc hcl e h' v' hs hd1 hn1
+    subst heq
+    have := getAttr_mono s0.heap s.heap hheap h' h a hd2
+    rw [this] at hn2
+    cases hn2
+    have hc := getAttr_closed s.heap hhc h' h a hcv this
+    rw [forceFresh_closed s h hc, embed_erase]
+  | .sub e es, h, v, hp, hs, hdec, hnow => by
+    simp only [HExpr.plain, Bool.and_eq_true] at hp
+    simp only [lateSafe, Bool.and_eq_true] at hs
+    simp only [evalH] at hdec hnow
+    obtain ⟨h', hd1, hd2⟩ := bind_ok _ _ _ hdec
+    obtain ⟨hs', hd3, hd4⟩ := bind_ok _ _ _ hd2
+    obtain ⟨v', hn1, hn2⟩ := bind_ok _ _ _ hnow
+    obtain ⟨vs', hn3, hn4⟩ := bind_ok _ _ _ hn2
+    cases hd4; cases hn4
+    simp only [forceFresh, RH.erase, embed]
+    rw [late_core e h' v' hp.1 hs.1 hd1 hn1, late_coreL es hs' vs' hp.2 hs.2 hd3 hn3]
+  | .bor a b, h, v, hp, hs, hdec, hnow => by
+    simp only [HExpr.plain, Bool.and_eq_true] at hp
+    simp only [lateSafe, Bool.and_eq_true] at hs
+    simp only [evalH] at hdec hnow
+    obtain ⟨x, hd1, hd2⟩ := bind_ok _ _ _ hdec
+    obtain ⟨y, hd3, hd4⟩ := bind_ok _ _ _ hd2
+    obtain ⟨x', hn1, hn2⟩ := bind_ok _ _ _ hnow
+    obtain ⟨y', hn3, hn4⟩ := bind_ok _ _ _ hn2
+    unfold orH at hd4 hn4
+    split at hd4
+    · cases hd4
+    · split at hn4
+      · cases hn4
+      · cases hd4; cases hn4
+        simp only [forceFresh, RH.erase, embed]
+        rw [late_core a x x' hp.1 hs.1 hd1 hn1, late_core b y y' hp.2 hs.2 hd3 hn3]
+  | .lit l, h, v, _, _, hdec, hnow => by
+    simp only [evalH, Except.ok.injEq] at hdec hnow
+    subst hdec; subst hnow
+    simp [forceFresh, RH.erase, embed]
+  | .quoted _, _, _, hp, _, _, _ => by simp [HExpr.plain] at hp
+theorem late_coreL : ∀ (es : List HExpr) (hs vs : List H), HExpr.plain.plainL es = true →
+    lateSafe.lateSafeL (fun n => (s0.modScope.get? n).isSome) es = true →
+    evalH.evalHs s0.heap (fwLk s0 fr []) true es = .ok hs → evalH.evalHs s.heap (pyLk s []) true es = .ok vs →
+    RH.erase.eraseL (forceFresh.forceFreshL s hs) = embed.embeds vs
+  | [], hs, vs, _, _, hdec, hnow => by
+    simp only [evalH.evalHs, Except.ok.injEq] at hdec hnow
+    subst hdec; subst hnow
+    simp [forceFresh.forceFreshL, RH.erase.eraseL, embed.embeds]
+  | e :: es, hs, vs, hp, hsf, hdec, hnow => by
+    simp only [HExpr.plain.plainL, Bool.and_eq_true] at hp
+    simp only [lateSafe.lateSafeL, Bool.and_eq_true] at hsf
+    simp only [evalH.evalHs] at hdec hnow
+    obtain ⟨h', hd1, hd2⟩ := bind_ok _ _ _ hdec
+    obtain ⟨hs', hd3, hd4⟩ := bind_ok _ _ _ hd2
+    obtain ⟨v', hn1, hn2⟩ := bind_ok _ _ _ hnow
+    obtain ⟨vs', hn3, hn4⟩ := bind_ok _ _ _ hn2
+    cases hd4; cases hn4
+    simp only [forceFresh.forceFreshL, RH.erase.eraseL, embed.embeds]
+    rw [late_core e h' v' hp.1 hsf.1 hd1 hn1, late_coreL es hs' vs' hp.2 hsf.2 hd3 hn3]
+end
+end late
+
+/-! ### module-level histories: the invariant -/
+
+mutual
+theorem closed_frameless : ∀ h : H, h.closed = true → h.frameless = true
+  | .obj _, _ => by simp [H.frameless]
+  | .fwd _, h => by simp [H.closed] at h
+  | .str _, _ => by simp [H.frameless]
+  | .sub g args, h => by
+    simp only [H.closed, Bool.and_eq_true] at h
+    simp [H.frameless, closed_frameless g h.1, closedL_frameless args h.2]
+  | .bor a b, h => by
+    simp only [H.closed, Bool.and_eq_true] at h
+    simp [H.frameless, closed_frameless a h.1, closed_frameless b h.2]
+  | .lit _, _ => by simp [H.frameless]
+theorem closedL_frameless : ∀ hs : List H, H.closed.closedL hs = true → H.frameless.framelessL hs = true
+  | [], _ => by simp [H.frameless.framelessL]
+  | g :: gs, h => by
+    simp only [H.closed.closedL, Bool.and_eq_true] at h
+    simp [H.frameless.framelessL, closed_frameless g h.1, closedL_frameless gs h.2]
+end
+
+def LkFrameless (lk : Name → Except Err H) : Prop := ∀ n v, lk n = .ok v → v.frameless = true
+
+theorem getAttr_frameless (hp : Heap) (hh : HeapClosed hp) (v w : H) (n : Name)
+    (h : getAttr hp v n = .ok w) : w.frameless = true := by
+  unfold getAttr at h
+  cases v with
+  | obj id =>
+    simp only at h
+    cases hw : (hp.attrs id).get? n with
+    | some w' => simp only [hw, Except.ok.injEq] at h; subst h; exact closed_frameless _ (hh id n w' hw)
+    | none => simp [hw] at h
+  | fwd p => simp only [Except.ok.injEq] at h; subst h; simp [H.frameless]
+  | str e => simp at h
+  | sub g a => simp at h
+  | bor a b => simp at h
+  | lit l => simp at h
+
+mutual
+theorem evalH_frameless (hp : Heap) (lk : Name → Except Err H) (tr : Bool) (hh : HeapClosed hp) (hl : LkFrameless lk) :
+    ∀ (e : HExpr) (v : H), evalH hp lk tr e = .ok v → v.frameless = true
+  | .name n, v, h => hl n v (by simpa [evalH] using h)
+  | .attr e n, v, h => by
+    simp only [evalH] at h
+    obtain ⟨w, _, h2⟩ := bind_ok _ _ _ h
+    exact getAttr_frameless hp hh w v n h2
+  | .sub e es, v, h => by
+    simp only [evalH] at h
+    obtain ⟨w, h1, h2⟩ := bind_ok _ _ _ h
+    obtain ⟨ws, h3, h4⟩ := bind_ok _ _ _ h2
+    cases h4
+    simp [H.frameless, evalH_frameless hp lk tr hh hl e w h1, evalHs_frameless hp lk tr hh hl es ws h3]
+  | .bor a b, v, h => by
+    simp only [evalH] at h
+    obtain ⟨x, h1, h2⟩ := bind_ok _ _ _ h
+    obtain ⟨y, h3, h4⟩ := bind_ok _ _ _ h2
+    unfold orH at h4
+    split at h4
+    · cases h4
+    · cases h4
+      simp [H.frameless, evalH_frameless hp lk tr hh hl a x h1, evalH_frameless hp lk tr hh hl b y h3]
+  | .lit l, v, h => by simp only [evalH, Except.ok.injEq] at h; subst h; simp [H.frameless]
+  | .quoted e, v, h => by
+    simp only [evalH] at h
+    cases tr with
+    | true => simp only [↓reduceIte] at h; exact evalH_frameless hp lk true hh hl e v h
+    | false => simp only [Bool.false_eq_true, ↓reduceIte, Except.ok.injEq] at h; subst h; simp [H.frameless]
+theorem evalHs_frameless (hp : Heap) (lk : Name → Except Err H) (tr : Bool) (hh : HeapClosed hp) (hl : LkFrameless lk) :
+    ∀ (es : List HExpr) (vs : List H), evalH.evalHs hp lk tr es = .ok vs → H.frameless.framelessL vs = true
+  | [], vs, h => by simp only [evalH.evalHs, Except.ok.injEq] at h; subst h; simp [H.frameless.framelessL]
+  | e :: es, vs, h => by
+    simp only [evalH.evalHs] at h
+    obtain ⟨w, h1, h2⟩ := bind_ok _ _ _ h
+    obtain ⟨ws, h3, h4⟩ := bind_ok _ _ _ h2
+    cases h4
+    simp [H.frameless.framelessL, evalH_frameless hp lk tr hh hl e w h1, evalHs_frameless hp lk tr hh hl es ws h3]
+end
+
+mutual
+theorem resolveH_frameless (rs : HExpr → Except Err H) (hrs : ∀ e v, rs e = .ok v → v.frameless = true) :
+    ∀ (h v : H), h.frameless = true → resolveH rs h = .ok v → v.frameless = true
+  | .obj _, v, _, hr => by simp only [resolveH, Except.ok.injEq] at hr; subst hr; simp [H.frameless]
+  | .fwd p, v, hf, hr => by simp only [resolveH, Except.ok.injEq] at hr; subst hr; exact hf
+  | .str e, v, _, hr => hrs e v (by simpa [resolveH] using hr)
+  | .sub g args, v, hf, hr => by
+    simp only [H.frameless, Bool.and_eq_true] at hf
+    simp only [resolveH] at hr
+    obtain ⟨w, h1, h2⟩ := bind_ok _ _ _ hr
+    obtain ⟨ws, h3, h4⟩ := bind_ok _ _ _ h2
+    cases h4
+    simp [H.frameless, resolveH_frameless rs hrs g w hf.1 h1, resolveHs_frameless rs hrs args ws hf.2 h3]
+  | .bor a b, v, hf, hr => by
+    simp only [H.frameless, Bool.and_eq_true] at hf
+    simp only [resolveH] at hr
+    obtain ⟨x, h1, h2⟩ := bind_ok _ _ _ hr
+    obtain ⟨y, h3, h4⟩ := bind_ok _ _ _ h2
+    cases h4
+    simp [H.frameless, resolveH_frameless rs hrs a x hf.1 h1, resolveH_frameless rs hrs b y hf.2 h3]
+  | .lit _, v, _, hr => by simp only [resolveH, Except.ok.injEq] at hr; subst hr; simp [H.frameless]
+theorem resolveHs_frameless (rs : HExpr → Except Err H) (hrs : ∀ e v, rs e = .ok v → v.frameless = true) :
+    ∀ (hs vs : List H), H.frameless.framelessL hs = true → resolveH.resolveHs rs hs = .ok vs → H.frameless.framelessL vs = true
+  | [], vs, _, hr => by simp only [resolveH.resolveHs, Except.ok.injEq] at hr; subst hr; simp [H.frameless.framelessL]
+  | g :: gs, vs, hf, hr => by
+    simp only [H.frameless.framelessL, Bool.and_eq_true] at hf
+    simp only [resolveH.resolveHs] at hr
+    obtain ⟨w, h1, h2⟩ := bind_ok _ _ _ hr
+    obtain ⟨ws, h3, h4⟩ := bind_ok _ _ _ h2
+    cases h4
+    simp [H.frameless.framelessL, resolveH_frameless rs hrs g w hf.1 h1, resolveHs_frameless rs hrs gs ws hf.2 h3]
+end
+
+
+theorem resolveProxy_cfl (s : St) (p : Proxy) (hp : p.frame = none) (hc : CacheFrameless s.cache) :
+    CacheFrameless (resolveProxy s p).2 := by
+  have hcons : ∀ r, CacheFrameless ((p, r) :: s.cache) := by
+    intro r q r' hq
+    simp only [cacheGet?] at hq
+    split at hq
+    · next heq => subst heq; exact hp
+    · exact hc q r' hq
+  unfold resolveProxy
+  cases cacheGet? s.cache p with
+  | some r => exact hc
+  | none =>
+    simp only [hp]
+    cases modAttr s p.path with
+    | some v => exact hcons _
+    | none => exact hc
+
+mutual
+theorem force_cfl (s : St) : ∀ (h : H) (c : List (Proxy × Ref)), h.frameless = true → CacheFrameless c →
+    CacheFrameless (force { s with cache := c } h).2
+  | .obj _, c, _, hc => by simpa [force] using hc
+  | .fwd p, c, hf, hc => by
+    simp only [H.frameless, Option.isNone_iff_eq_none] at hf
+    have := resolveProxy_cfl { s with cache := c } p hf hc
+    simp only [force]
+    generalize resolveProxy { s with cache := c } p = rp at this
+    obtain ⟨res, c'⟩ := rp
+    cases res <;> exact this
+  | .str _, c, _, hc => by simpa [force] using hc
+  | .sub g args, c, hf, hc => by
+    simp only [H.frameless, Bool.and_eq_true] at hf
+    have h1 := force_cfl s g c hf.1 hc
+    simp only [force]
+    generalize force { s with cache := c } g = fg at h1
+    obtain ⟨r, c1⟩ := fg
+    have h2 := forces_cfl s args c1 hf.2 h1
+    generalize hfa : force.forces { s with cache := c1 } args = fa at h2
+    obtain ⟨rs, c2⟩ := fa
+    have he : ({ ({ s with cache := c } : St) with cache := c1 } : St) = { s with cache := c1 } := rfl
+    simp only [he, hfa]
+    exact h2
+  | .bor a b, c, hf, hc => by
+    simp only [H.frameless, Bool.and_eq_true] at hf
+    have h1 := force_cfl s a c hf.1 hc
+    simp only [force]
+    generalize force { s with cache := c } a = fg at h1
+    obtain ⟨r, c1⟩ := fg
+    have h2 := force_cfl s b c1 hf.2 h1
+    generalize hfa : force { s with cache := c1 } b = fa at h2
+    obtain ⟨r2, c2⟩ := fa
+    have he : ({ ({ s with cache := c } : St) with cache := c1 } : St) = { s with cache := c1 } := rfl
+    simp only [he, hfa]
+    exact h2
+  | .lit _, c, _, hc => by simpa [force] using hc
+theorem forces_cfl (s : St) : ∀ (hs : List H) (c : List (Proxy × Ref)), H.frameless.framelessL hs = true → CacheFrameless c →
+    CacheFrameless (force.forces { s with cache := c } hs).2
+  | [], c, _, hc => by simpa [force.forces] using hc
+  | g :: gs, c, hf, hc => by
+    simp only [H.frameless.framelessL, Bool.and_eq_true] at hf
+    have h1 := force_cfl s g c hf.1 hc
+    simp only [force.forces]
+    generalize force { s with cache := c } g = fg at h1
+    obtain ⟨r, c1⟩ := fg
+    have h2 := forces_cfl s gs c1 hf.2 h1
+    generalize hfa : force.forces { s with cache := c1 } gs = fa at h2
+    obtain ⟨rs, c2⟩ := fa
+    have he : ({ ({ s with cache := c } : St) with cache := c1 } : St) = { s with cache := c1 } := rfl
+    simp only [he, hfa]
+    exact h2
+end
+
+/-- a frameless proxy resolves through the module attribute only -/
+def modRef (s : St) (path : List Name) : Except Err Ref :=
+  match modAttr s path with
+  | some v => .ok (.val v)
+  | none => .error (.fwdref path)
+
+theorem resolveFresh_frameless (s : St) (p : Proxy) (hp : p.frame = none) :
+    resolveFresh s p = modRef s p.path := by
+  unfold resolveFresh modRef
+  simp only [hp]
+  cases modAttr s p.path <;> rfl
+
+theorem act?_funcs (s : St) (fs : List FuncRec) (a : Nat) : St.act? { s with funcs := fs } a = s.act? a := rfl
+
+theorem findFrameCode_funcs (s : St) (fs : List FuncRec) (code : Nat) :
+    ∀ l : List Nat, findFrameCode { s with funcs := fs } code l = findFrameCode s code l
+  | [] => by simp [findFrameCode]
+  | a :: r => by
+    simp only [findFrameCode, act?_funcs]
+    rw [findFrameCode_funcs s fs code r]
+
+theorem modAttr_funcs (s : St) (fs : List FuncRec) (path : List Name) :
+    modAttr { s with funcs := fs } path = modAttr s path := by
+  unfold modAttr
+  split <;> rfl
+
+theorem resolveFresh_funcs (s : St) (fs : List FuncRec) (p : Proxy) :
+    resolveFresh { s with funcs := fs } p = resolveFresh s p := by
+  unfold resolveFresh
+  rw [modAttr_funcs]
+  have : ({ s with funcs := fs } : St).stack = s.stack := rfl
+  rw [this]
+  cases p.frame with
+  | none => rfl
+  | some code => simp only [findFrameCode_funcs]
+
+theorem modAttr_bind_fresh (s : St) (n : Name) (v v0 : H) (path : List Name)
+    (hfresh : s.modScope.get? n = none) (h : modAttr s path = some v0) :
+    modAttr { s with globals := (n, v) :: s.globals } path = some v0 := by
+  have hg : s.globals.get? n = none ∧ s.builtins.get? n = none := by
+    simp only [St.modScope, Scope.get?_append] at hfresh
+    cases hgn : s.globals.get? n with
+    | some w => simp [hgn] at hfresh
+    | none => simp only [hgn] at hfresh; exact ⟨rfl, hfresh⟩
+  cases path with
+  | nil => simp [modAttr] at h
+  | cons m r =>
+    by_cases hmn : n = m
+    · subst hmn
+      cases r with
+      | nil => simp [modAttr, hg.1, hg.2] at h
+      | cons a r' => simp [modAttr, hg.1] at h
+    · cases r with
+      | nil =>
+        simp only [modAttr, Scope.get?, hmn, ↓reduceIte] at h ⊢
+        exact h
+      | cons a r' =>
+        simp only [modAttr, Scope.get?, hmn, ↓reduceIte] at h ⊢
+        exact h
+
+
+theorem modInv_bind (s : St) (n : Name) (v : H) (inv : ModInv s) (hv : v.closed = true)
+    (hfresh : s.modScope.get? n = none) : ModInv (s.bind n v) := by
+  have hb : s.bind n v = { s with globals := (n, v) :: s.globals } := by simp [St.bind, inv.top]
+  rw [hb]
+  refine ⟨inv.top, ?_, inv.cfl, inv.funcs, ?_, inv.heapClosed⟩
+  · intro p r hpr
+    have hfl := inv.cfl p r hpr
+    have hr := inv.cacheOK p r hpr
+    rw [resolveFresh_frameless s p hfl] at hr
+    rw [resolveFresh_frameless _ p hfl]
+    unfold modRef at hr ⊢
+    cases hm : modAttr s p.path with
+    | none => simp [hm] at hr
+    | some v0 =>
+      simp only [hm] at hr
+      simp only [modAttr_bind_fresh s n v v0 p.path hfresh hm]
+      exact hr
+  · intro m w hw
+    simp only [St.modScope, List.cons_append, Scope.get?] at hw
+    split at hw
+    · cases hw; exact hv
+    · exact inv.scopeClosed m w hw
+
+theorem pyLk_top_closed (s : St) (inv : ModInv s) : LkClosed (pyLk s s.stack) := by
+  rw [inv.top]
+  intro n v hv
+  rw [pyLk_module] at hv
+  exact boundLk_closed _ inv.scopeClosed n v hv
+
+theorem lkClosed_frameless (lk : Name → Except Err H) (h : LkClosed lk) : LkFrameless lk :=
+  fun n v hv => closed_frameless v (h n v hv)
+
+theorem mem_of_func? (s : St) (f : Nat) (fr : FuncRec) (h : s.func? f = some fr) : fr ∈ s.funcs :=
+  List.mem_of_find?_eq_some h
+
+theorem modInv_step (s : St) (ev : Ev) (inv : ModInv s) (hm : ev.modLevel = true) (hf : ev.fresh s = true) :
+    ModInv (step s ev).1 := by
+  cases ev with
+  | bindV n v =>
+    simp only [Ev.modLevel] at hm
+    simp only [Ev.fresh, Option.isNone_iff_eq_none] at hf
+    simpa [step] using modInv_bind s n v inv hm hf
+  | bindE n e =>
+    simp only [Ev.modLevel] at hm
+    simp only [Ev.fresh, Option.isNone_iff_eq_none] at hf
+    simp only [step]
+    cases he : evalH s.heap (pyLk s s.stack) false e with
+    | error err => simpa using inv
+    | ok v =>
+      have hc : v.closed = true := by
+        rw [← evalH_plain s.heap _ e hm] at he
+        exact evalH_closed s.heap _ inv.heapClosed (pyLk_top_closed s inv) e v he
+      simpa using modInv_bind s n v inv hc hf
+  | enter k c nm => simp [Ev.modLevel] at hm
+  | leave id => simp [Ev.modLevel] at hm
+  | def_ f nm e =>
+    simp only [step]
+    cases he : evalH s.heap (pyLk s s.stack) false e with
+    | error err => simpa using inv
+    | ok v =>
+      have hfl : v.frameless = true :=
+        evalH_frameless s.heap _ false inv.heapClosed (lkClosed_frameless _ (pyLk_top_closed s inv)) e v he
+      refine ⟨inv.top, ?_, inv.cfl, ?_, inv.scopeClosed, inv.heapClosed⟩
+      · intro p r hpr
+        simp only [resolveFresh_funcs]
+        exact inv.cacheOK p r hpr
+      · intro fr hfr
+        simp only [List.mem_cons] at hfr
+        rcases hfr with rfl | hfr
+        · exact ⟨inv.top, hfl, by intro h hh; cases hh⟩
+        · exact inv.funcs fr hfr
+  | decorate f cs =>
+    simp only [Ev.modLevel, List.isEmpty_iff] at hm
+    subst hm
+    simp only [step]
+    cases hfn : s.func? f with
+    | none => simpa using inv
+    | some fr =>
+      simp only []
+      cases hd : decorVal s fr [] with
+      | error err => simpa using inv
+      | ok h =>
+        obtain ⟨hlex, hh0, _⟩ := inv.funcs fr (mem_of_func? s f fr hfn)
+        have hrs : ∀ e v, resolveStr s fr [] e = .ok v → v.frameless = true := by
+          intro e v hv
+          unfold resolveStr at hv
+          cases hsc : shortcut s fr [] e with
+          | some m => simp only [hsc, Except.ok.injEq] at hv; subst hv; simp [H.frameless]
+          | none =>
+            simp only [hsc] at hv
+            refine evalH_frameless s.heap _ true inv.heapClosed ?_ e v hv
+            intro m w hw
+            rw [fwLk_module s fr m hlex] at hw
+            unfold proxyLk at hw
+            cases hg : s.modScope.get? m with
+            | some w' => simp only [hg, Except.ok.injEq] at hw; subst hw; exact closed_frameless _ (inv.scopeClosed m w' hg)
+            | none => simp only [hg, Except.ok.injEq] at hw; subst hw; simp [H.frameless]
+        have hfl : h.frameless = true := resolveH_frameless _ hrs fr.hint0 h hh0 hd
+        refine ⟨inv.top, ?_, inv.cfl, ?_, inv.scopeClosed, inv.heapClosed⟩
+        · intro p r hpr
+          simp only [resolveFresh_funcs]
+          exact inv.cacheOK p r hpr
+        · intro fr' hfr'
+          simp only [setHint, List.mem_map] at hfr'
+          obtain ⟨fr0, hfr0, rfl⟩ := hfr'
+          obtain ⟨h1, h2, h3⟩ := inv.funcs fr0 hfr0
+          split
+          · exact ⟨h1, h2, by intro h' hh'; cases hh'; exact hfl⟩
+          · exact ⟨h1, h2, h3⟩
+  | call f =>
+    cases hfn : s.func? f with
+    | none => simpa [step, hfn] using inv
+    | some fr =>
+      cases hh : fr.hint with
+      | none => simpa [step, hfn, hh] using inv
+      | some h =>
+        have hst : (step s (.call f)).1 = { s with cache := (force s h).2 } := by simp only [step, hfn, hh]
+        rw [hst]
+        obtain ⟨_, _, h3⟩ := inv.funcs fr (mem_of_func? s f fr hfn)
+        have hfl := h3 h hh
+        have he : ({ s with cache := s.cache } : St) = s := rfl
+        have h1 := force_spec s h s.cache inv.cacheOK
+        have h2 := force_cfl s h s.cache hfl inv.cfl
+        rw [he] at h1 h2
+        refine ⟨inv.top, ?_, h2, inv.funcs, inv.scopeClosed, inv.heapClosed⟩
+        intro p r' hpr
+        simp only [resolveFresh_cache]
+        exact h1.2 p r' hpr
+
+theorem modInv_run : ∀ (evs : List Ev) (s : St), ModInv s → ModHistory s evs → ModInv (run s evs).1
+  | [], s, inv, _ => by simpa [run] using inv
+  | ev :: evs, s, inv, hh => by
+    obtain ⟨hm, hf, hrest⟩ := hh
+    simp only [run]
+    exact modInv_run evs (step s ev).1 (modInv_step s ev inv hm hf) hrest
+
+/-! ### what a module-level history leaves alone -/
+
+def setOne (g : Nat) (h : H) (r : FuncRec) : FuncRec := if r.fid = g then { r with hint := some h } else r
+
+theorem setHint_eq (fs : List FuncRec) (g : Nat) (h : H) : setHint fs g h = fs.map (setOne g h) := rfl
+
+theorem func?_setHint_ne (fs : List FuncRec) (f g : Nat) (h : H) (hne : g ≠ f) :
+    (setHint fs g h).find? (fun r => r.fid == f) = fs.find? (fun r => r.fid == f) := by
+  rw [setHint_eq]
+  induction fs with
+  | nil => rfl
+  | cons r rest ih =>
+    simp only [List.map_cons, List.find?_cons]
+    by_cases hr : r.fid = g
+    · have h1 : ((setOne g h r).fid == f) = false := by simp [setOne, hr, hne]
+      have h2 : (r.fid == f) = false := by simp [hr, hne]
+      simp only [h1, h2]
+      exact ih
+    · have hid : setOne g h r = r := by simp [setOne, hr]
+      rw [hid]
+      cases (r.fid == f)
+      · exact ih
+      · rfl
+
+theorem step_untouched (s : St) (ev : Ev) (f : Nat) (fr : FuncRec) (inv : ModInv s)
+    (hm : ev.modLevel = true) (hfresh : ev.fresh s = true) (ht : ev.touches f = false) (hf : s.func? f = some fr) :
+    (step s ev).1.func? f = some fr ∧ (step s ev).1.heap = s.heap ∧
+    (∀ n w, s.modScope.get? n = some w → (step s ev).1.modScope.get? n = some w) := by
+  have hbind : ∀ n v, s.modScope.get? n = none →
+      (s.bind n v).func? f = some fr ∧ (s.bind n v).heap = s.heap ∧
+      (∀ m w, s.modScope.get? m = some w → (s.bind n v).modScope.get? m = some w) := by
+    intro n v hn
+    have hb : s.bind n v = { s with globals := (n, v) :: s.globals } := by simp [St.bind, inv.top]
+    rw [hb]
+    refine ⟨hf, rfl, ?_⟩
+    intro m w hw
+    simp only [St.modScope, List.cons_append, Scope.get?]
+    split
+    · next heq => subst heq; simp only [St.modScope] at hn hw; rw [hn] at hw; cases hw
+    · exact hw
+  cases ev with
+  | bindV n v =>
+    simp only [Ev.fresh, Option.isNone_iff_eq_none] at hfresh
+    simpa [step] using hbind n v hfresh
+  | bindE n e =>
+    simp only [Ev.fresh, Option.isNone_iff_eq_none] at hfresh
+    simp only [step]
+    cases evalH s.heap (pyLk s s.stack) false e with
+    | error err => exact ⟨hf, rfl, fun _ _ h => h⟩
+    | ok v => simpa using hbind n v hfresh
+  | enter k c nm => simp [Ev.modLevel] at hm
+  | leave id => simp [Ev.modLevel] at hm
+  | def_ g nm e =>
+    simp only [Ev.touches, beq_eq_false_iff_ne, ne_eq] at ht
+    simp only [step]
+    cases evalH s.heap (pyLk s s.stack) false e with
+    | error err => exact ⟨hf, rfl, fun _ _ h => h⟩
+    | ok v =>
+      refine ⟨?_, rfl, fun _ _ h => h⟩
+      simp only [St.func?, List.find?_cons]
+      have : (g == f) = false := by simp [ht]
+      simp only [this]
+      exact hf
+  | decorate g cs =>
+    simp only [Ev.touches, beq_eq_false_iff_ne, ne_eq] at ht
+    simp only [step]
+    cases s.func? g with
+    | none => exact ⟨hf, rfl, fun _ _ h => h⟩
+    | some frg =>
+      simp only []
+      cases decorVal s frg cs with
+      | error err => exact ⟨hf, rfl, fun _ _ h => h⟩
+      | ok h =>
+        refine ⟨?_, rfl, fun _ _ h => h⟩
+        simp only [St.func?]
+        rw [func?_setHint_ne s.funcs f g h ht]
+        exact hf
+  | call g =>
+    simp only [step]
+    cases s.func? g with
+    | none => exact ⟨hf, rfl, fun _ _ h => h⟩
+    | some frg =>
+      simp only []
+      cases frg.hint with
+      | none => exact ⟨hf, rfl, fun _ _ h => h⟩
+      | some h => exact ⟨hf, rfl, fun _ _ h => h⟩
+
+theorem run_untouched : ∀ (evs : List Ev) (s : St) (f : Nat) (fr : FuncRec), ModInv s → ModHistory s evs →
+    (∀ ev ∈ evs, ev.touches f = false) → s.func? f = some fr →
+    (run s evs).1.func? f = some fr ∧ (run s evs).1.heap = s.heap ∧
+    (∀ n w, s.modScope.get? n = some w → (run s evs).1.modScope.get? n = some w)
+  | [], s, f, fr, _, _, _, hf => ⟨hf, rfl, fun _ _ h => h⟩
+  | ev :: evs, s, f, fr, inv, hh, ht, hf => by
+    obtain ⟨hm, hfr, hrest⟩ := hh
+    have h1 := step_untouched s ev f fr inv hm hfr (ht ev (by simp)) hf
+    have h2 := run_untouched evs (step s ev).1 f fr (modInv_step s ev inv hm hfr) hrest
+      (fun ev' h' => ht ev' (by simp [h'])) h1.1
+    simp only [run]
+    exact ⟨h2.1, h2.2.1.trans h1.2.1, fun n w hw => h2.2.2 n w (h1.2.2 n w hw)⟩
+
+theorem modInv_init (builtins : Scope) (heap : Heap) (hb : ∀ n w, builtins.get? n = some w → w.closed = true)
+    (hh : HeapClosed heap) : ModInv (St.init builtins heap) :=
+  { top := rfl
+    cacheOK := cacheOK_nil _
+    cfl := by intro p r h; simp [St.init, cacheGet?] at h
+    funcs := by intro fr h; simp [St.init] at h
+    scopeClosed := by
+      intro n w h
+      simp only [St.init, St.modScope, List.nil_append] at h
+      exact hb n w h
+    heapClosed := hh }
+
+/-! ### the variant with strings only at the names -/
+
+theorem evalH_py_closed (hp : Heap) (lk : Name → Except Err H) (hh : HeapClosed hp) (hl : LkClosed lk)
+    (e : HExpr) (v : H) (hplain : e.plain = true) (h : evalH hp lk false e = .ok v) : v.closed = true := by
+  rw [← evalH_plain hp lk e hplain] at h
+  exact evalH_closed hp lk hh hl e v h
+
+mutual
+theorem leaves_core (hp : Heap) (py : Name → Except Err H) (rs : HExpr → Except Err H) (q : Name → Bool)
+    (hh : HeapClosed hp) (hl : LkClosed py) (hrs : ∀ n, q n = true → rs (.name n) = py n) :
+    ∀ (e : HExpr) (v : H), e.plain = true → e.borFree = true → evalH hp py false e = .ok v →
+      ∃ w, evalH hp py false (quoteLeaves q e) = .ok w ∧ resolveH rs w = .ok v
+  | .name n, v, _, _, h => by
+    simp only [evalH] at h
+    by_cases hq : q n = true
+    · refine ⟨.str (.name n), by simp [quoteLeaves, hq, evalH], ?_⟩
+      simp only [resolveH, hrs n hq, h]
+    · refine ⟨v, by simpa [quoteLeaves, hq, evalH] using h, ?_⟩
+      exact resolveH_closed rs v (hl n v h)
+  | .attr e a, v, hp', _, h => by
+    refine ⟨v, by simpa [quoteLeaves] using h, ?_⟩
+    exact resolveH_closed rs v (evalH_py_closed hp py hh hl (.attr e a) v hp' h)
+  | .sub e es, v, hp', hb, h => by
+    simp only [HExpr.plain, Bool.and_eq_true] at hp'
+    simp only [HExpr.borFree, Bool.and_eq_true] at hb
+    simp only [evalH] at h
+    obtain ⟨x, h1, h2⟩ := bind_ok _ _ _ h
+    obtain ⟨xs, h3, h4⟩ := bind_ok _ _ _ h2
+    cases h4
+    obtain ⟨w, hw1, hw2⟩ := leaves_core hp py rs q hh hl hrs e x hp'.1 hb.1 h1
+    obtain ⟨ws, hws1, hws2⟩ := leaves_coreL hp py rs q hh hl hrs es xs hp'.2 hb.2 h3
+    refine ⟨.sub w ws, by simp [quoteLeaves, evalH, hw1, hws1, Except.bind], ?_⟩
+    simp [resolveH, hw2, hws2, Except.bind]
+  | .bor _ _, _, _, hb, _ => by simp [HExpr.borFree] at hb
+  | .lit l, v, _, _, h => by
+    simp only [evalH, Except.ok.injEq] at h; subst h
+    exact ⟨.lit l, by simp [quoteLeaves, evalH], by simp [resolveH]⟩
+  | .quoted _, _, hp', _, _ => by simp [HExpr.plain] at hp'
+theorem leaves_coreL (hp : Heap) (py : Name → Except Err H) (rs : HExpr → Except Err H) (q : Name → Bool)
+    (hh : HeapClosed hp) (hl : LkClosed py) (hrs : ∀ n, q n = true → rs (.name n) = py n) :
+    ∀ (es : List HExpr) (vs : List H), HExpr.plain.plainL es = true → HExpr.borFree.borFreeL es = true →
+      evalH.evalHs hp py false es = .ok vs →
+      ∃ ws, evalH.evalHs hp py false (quoteLeaves.quoteLeavesL q es) = .ok ws ∧ resolveH.resolveHs rs ws = .ok vs
+  | [], vs, _, _, h => by
+    simp only [evalH.evalHs, Except.ok.injEq] at h; subst h
+    exact ⟨[], by simp [quoteLeaves.quoteLeavesL, evalH.evalHs], by simp [resolveH.resolveHs]⟩
+  | e :: es, vs, hp', hb, h => by
+    simp only [HExpr.plain.plainL, Bool.and_eq_true] at hp'
+    simp only [HExpr.borFree.borFreeL, Bool.and_eq_true] at hb
+    simp only [evalH.evalHs] at h
+    obtain ⟨x, h1, h2⟩ := bind_ok _ _ _ h
+    obtain ⟨xs, h3, h4⟩ := bind_ok _ _ _ h2
+    cases h4
+    obtain ⟨w, hw1, hw2⟩ := leaves_core hp py rs q hh hl hrs e x hp'.1 hb.1 h1
+    obtain ⟨ws, hws1, hws2⟩ := leaves_coreL hp py rs q hh hl hrs es xs hp'.2 hb.2 h3
+    refine ⟨w :: ws, by simp [quoteLeaves.quoteLeavesL, evalH.evalHs, hw1, hws1, Except.bind], ?_⟩
+    simp [resolveH.resolveHs, hw2, hws2, Except.bind]
 end
 
 end BearVerif.Fwd
